@@ -3,6 +3,7 @@ use crate::core::Cx;
 pub mod c02;
 pub mod c03;
 pub mod c04;
+pub mod c05;
 pub mod c06;
 pub mod c07;
 pub mod c08;
@@ -24,6 +25,7 @@ pub fn run(id: &str, cx: &mut Cx) -> bool {
         "C02" => c02::run(cx),
         "C03" => c03::run_prop(cx),
         "C04" => c04::run(cx),
+        "C05" => c05::run(cx),
         "C06" => c06::run(cx),
         "C07" => c07::run(cx),
         "C08" => c08::run(cx),
